@@ -58,6 +58,37 @@ def object_events(entry, enc, tid0, rng, quick, run):
         tid += 1
         evs.append({"ev": "Encode", "tid": tid, "m": fec.limbs(m, k), "c": fec.limbs(c, n)})
         run.case((entry.name, "enc", m), nontrivial=m != 0)
+    # the same object after the nn.Module protocol has been applied to it (deep copy, pickle round trip, state_dict into a fresh object, eval
+    # mode, .double()): a codeword that differs from the object's own is logged as one more Encode event and judged by the specification
+    from .core import module_forms
+    sub = list(range(len(msgs))) if len(msgs) <= 16 else [0, 1, 2, len(msgs) // 2, len(msgs) - 1] + rng.sample(range(len(msgs)), 6)
+    for kind, enc2 in module_forms(enc, mk=entry.ctor):
+        try:
+            C2 = enc2(M[sub].double() if kind == "double" else M[sub])
+        except Exception as e:
+            run.violate(entry.component, "encoder_raised", dict(entry.config(), form=kind), {"object": entry.name, "error": repr(e)[:200], "form": kind})
+            continue
+        for j, i in enumerate(sub):
+            run.case((entry.name, "enc", msgs[i], kind), nontrivial=msgs[i] != 0)
+            c2 = fec.to_int(C2[j])
+            if c2 != cws[i]:
+                tid += 1
+                evs.append({"ev": "Encode", "tid": tid, "m": fec.limbs(msgs[i], k), "c": fec.limbs(c2, n), "form": kind})
+    # the object itself called under torch.no_grad() / torch.inference_mode(): the codewords are the same
+    from .core import call_contexts
+    for kind, ctx in call_contexts():
+        try:
+            with ctx():
+                C2 = enc(M[sub])
+        except Exception as e:
+            run.violate(entry.component, "encoder_raised", dict(entry.config(), form=kind), {"object": entry.name, "error": repr(e)[:200], "form": kind})
+            continue
+        for j, i in enumerate(sub):
+            run.case((entry.name, "enc", msgs[i], kind), nontrivial=msgs[i] != 0)
+            c2 = fec.to_int(C2[j])
+            if c2 != cws[i]:
+                tid += 1
+                evs.append({"ev": "Encode", "tid": tid, "m": fec.limbs(msgs[i], k), "c": fec.limbs(c2, n), "form": kind})
     # words for the syndrome clause: codewords, single-bit perturbations, random words
     words = []
     sel = cws if len(cws) <= 64 else rng.sample(cws, 64)
